@@ -232,6 +232,15 @@ def expected_param_bytes(t, b, vals_addr, off):
     return v.to_bytes(8, 'little')
 
 
+SRET_MSG = 'sret: psABI returns the address of a memory-class return block in rax'
+
+
+def sret_required(proto):
+    """first parameter is the return block and rax is not taken by an integer result"""
+    return proto['nfixed'] >= 1 and proto['args'] and proto['args'][0].startswith('rblk') \
+        and not any(t in G.ITYS for t in proto['res'])
+
+
 def press_sum(body):
     M = (1 << 64) - 1
     p = body['press']
@@ -269,6 +278,10 @@ def compare_c06(proto, body, m, impl, vals, resvals, rblk_ptrs, engine='gen'):
         if regs[rl][:n] != resvals[i][:n]:
             bad.append('result %d (%s in %s): caller receives %s, function returned %s' % (
                 i, t, rl, regs[rl][:n].hex(), resvals[i][:n].hex()))
+    if sret_required(proto):
+        got = int.from_bytes(out[0:8], 'little')
+        if got != rblk_ptrs[0]:
+            bad.append(SRET_MSG + ': rax=%x on return, return-block address %x' % (got, rblk_ptrs[0]))
     for k, name in enumerate(SENT_NAMES):
         got = int.from_bytes(out[80 + 8 * k:88 + 8 * k], 'little')
         if got != SENT[k]:
